@@ -133,7 +133,7 @@ func runC11(c C11Case, info *kit.Info) *kit.Finding {
 		if tgt, err = kit.NewTCPTarget(s.control); err == nil {
 			defer tgt.Close()
 			for i, spec := range c.Relays {
-				cn, err := net.DialTimeout("tcp", addr, 3*time.Second)
+				cn, err := kit.DialTCP(addr, 3*time.Second)
 				if err != nil {
 					if kit.EnvNetError(err) {
 						info.Skipped = "host out of ports: " + err.Error()
@@ -141,7 +141,7 @@ func runC11(c C11Case, info *kit.Info) *kit.Finding {
 					}
 					return kit.Violation("reload:refused", "cannot open relay %d before any reload: %v", i, err)
 				}
-				rl := &relay{spec: spec, cl: cn.(*net.TCPConn), local: cn.LocalAddr().String()}
+				rl := &relay{spec: spec, cl: cn, local: cn.LocalAddr().String()}
 				defer rl.cl.Close()
 				rl.enc = kit.NewStreamEncoder(key, kit.DetBytes(s.nextSeed(), key.SaltSize()))
 				first := kit.DetBytes(int64(i)+1, spec.Before)
@@ -187,7 +187,7 @@ func runC11(c C11Case, info *kit.Info) *kit.Finding {
 			for !stop.Load() {
 				seed++
 				rec := c11Conn{start: time.Now()}
-				cn, err := net.DialTimeout("tcp", addr, 5*time.Second)
+				cn, err := kit.DialTCP(addr, 5*time.Second)
 				if err != nil {
 					if kit.EnvNetError(err) {
 						time.Sleep(time.Millisecond)
@@ -197,7 +197,7 @@ func runC11(c C11Case, info *kit.Info) *kit.Finding {
 				} else {
 					rec.local = cn.LocalAddr().String()
 					cn.Write(kit.EncodeStream(key, kit.DetBytes(seed, key.SaltSize()), append(kit.SocksAddr("127.0.0.1", 9, false), "h"...), nil))
-					cn.(*net.TCPConn).CloseWrite()
+					cn.CloseWrite()
 					cn.SetReadDeadline(time.Now().Add(5 * time.Second))
 					_, rerr := io.Copy(io.Discard, cn)
 					if rerr != nil {
